@@ -25,7 +25,7 @@ import (
 type Case struct {
 	Role    string `json:"role"` // server | client
 	Input   []byte `json:"input"`
-	Seg     string `json:"seg"`  // whole | bytes | split:<n> | lines
+	Seg     string `json:"seg"` // whole | bytes | split:<n> | lines
 	Trail   []byte `json:"trail,omitempty"`
 	Origin  string `json:"origin"`
 	Verdict string `json:"verdict"` // must-accept | must-reject | dont-care (reference classification)
@@ -272,9 +272,9 @@ func plainTokens(v string) ([]string, bool) {
 
 var canonicalServerInputs = map[string]bool{
 	announce + upgrade: true,
-	"X-SOCKETACE / HTTP/1.1\r\nAccepts-Protocol-Version: v1.0.0, v2.0.0\r\n\r\n" + upgrade: true,
+	"X-SOCKETACE / HTTP/1.1\r\nAccepts-Protocol-Version: v1.0.0, v2.0.0\r\n\r\n" + upgrade:                  true,
 	"X-SOCKETACE / HTTP/1.1\r\nAccepts-Protocol-Version: v2.0.0, v1.0.0\r\nUser-Agent: x\r\n\r\n" + upgrade: true,
-	"X-SOCKETACE / HTTP/1.1\r\nAccepts-Protocol-Version: v2.0.0\r\nUser-Agent: x\r\n\r\n" + upgrade: true,
+	"X-SOCKETACE / HTTP/1.1\r\nAccepts-Protocol-Version: v2.0.0\r\nUser-Agent: x\r\n\r\n" + upgrade:         true,
 }
 
 // lenient re-reads the input the way a tolerant line reader would: bare LF ends a line.
